@@ -2,7 +2,7 @@ import Proofs.Lemmas.Frame
 /-!
 # C02 — the backtracking executor restores its shared state (`undo_restores`), a failed attempt
 leaves the matcher as it found it (`failed_attempt_restores`), and the backtracker refines the PikeVM
-on the fragment without `Loop1CharBody` and look-arounds (`bt_refines_pk`, `C02_partial`)
+for all programs without `Loop1CharBody` (`bt_refines_pk`, `C02_partial`)
 
 Model: `Regress.VM.Bt` (`RegressModel/VM/Backtrack.lean`), the transliteration of
 `src/classicalbacktrack.rs` *with* the two repairs "record an undo entry when a capture group is
@@ -107,7 +107,7 @@ theorem undo_restores_run (prog : Prog) (hc : lookClosed prog = true) (inp : Inp
 /-- The footprint of the nested run of a look-around (used by `undo_restores_run`, of independent
 interest): a run that starts inside a closed region `R` of the program on a stack that resumes inside
 `R` changes, whether it matches or fails, only the loop slots `L` and group slots `G` of the region. -/
-theorem run_footprint (prog : Prog) (R L G : Nat → Bool) (hReg : Region prog R L G) (inp : Input)
+theorem run_footprint (prog : Prog) (R L G : Nat → Bool) (hReg : Region prog R R L G) (inp : Input)
     (limit sf ip pos : Nat) (fwd : Bool) (st : State) (bts : Array BtInsn) (steps peak : Nat)
     (hip : R ip = true) (hb : RecsIn prog R L G bts) :
     OutIn L G st (run prog inp limit sf ip pos fwd st bts steps peak) :=
@@ -149,40 +149,52 @@ theorem failed_btAttempt_restores (prog : Prog) (hc : lookClosed prog = true) (i
     ∀ i, lookLoop prog i = false → st'.loops[i]? = acc.st.loops[i]? :=
   failed_attempt_restores prog hc inp limit _ 0 pos true acc.st acc.steps acc.peak h
 
-/-! ## 3. `bt_refines_pk` — the fragment without `Loop1CharBody` and look-arounds
+/-! ## 3. `bt_refines_pk` — all programs without `Loop1CharBody`
 
-`simpleProg prog`: no `Loop1CharBody`, no look-around instruction (greedy and non-greedy loops,
-alternation, capture groups, back-references, anchors, word boundaries, all single-element matchers are
-allowed). `loopsStructured prog`: loop bodies `(EnterLoop, LoopAgain]` are entered only through their
-`EnterLoop`, and a loop's exit lies outside every body with the same loop id (decidable; what the
-emitter produces). `inpOK inp`: an ASCII input holds bytes `< 256`.
+Hypotheses (all decidable, all true of the emitter's output; `example`s below):
+* `simpleProg prog`: no `Loop1CharBody` instruction. Everything else is covered: greedy and non-greedy
+  loops, alternation, capture groups, back-references, look-aheads and look-behinds (positive and
+  negative, nested), anchors, word boundaries, all single-element matchers.
+* `loopsStructured prog`: loop bodies `(EnterLoop, LoopAgain]` are entered only through their
+  `EnterLoop`, and a loop's exit lies outside every body with the same loop id.
+* `looksStructured prog`: `lookClosed prog`; every instruction continues at addresses with the same
+  innermost enclosing look-around (`Sim.encl`); a loop live at the continuation of a look-around is
+  live throughout its body; the loops inside a look-around body are live only there.
+* `inpOK inp`: an ASCII input holds bytes `< 256`.
 
 The simulation relation (`Sim.StRel`, `Sim.SnapRel`): the PikeVM's explicit stack is, bottom first,
 one saved state for every choice record of `bts` (`SetPosition ip pos` ↦ the state at `ip, pos` with
 the backtracker's state as `try_backtrack` would restore it; `EnterNonGreedyLoop` ↦ the loop body
 entry), then the current state. Groups are equal; a loop slot is related only while control is inside
 the body of its loop (there the backtracker's `iters` is the PikeVM's `+ 1`, the entries are equal) —
-outside it is dead in both machines (and does differ: the machines leave different `entry` values). -/
+outside it is dead in both machines (and does differ: the machines leave different `entry` values).
+A look-around runs a nested pair of runs related in the same way; afterwards the loop slots written
+inside its body differ arbitrarily, which is harmless because they are dead wherever the outer
+stack resumes (`Sim.SnapRel.congr`). The machines run in lock step: equal tick counts. -/
 
 open Regress.VM.Sim in
-/-- **Lock-step simulation** (`bt_refines_pk`): on related configurations the two machines produce
-corresponding outcomes — same end of match, same capture groups, same number of ticks; both fail;
-or both exhaust the tick budget. Outcomes are not compared if either machine reports `.error`. -/
-theorem bt_refines_pk (prog : Prog) (hs : loopsStructured prog = true) (hsimple : simpleProg prog = true)
-    (inp : Input) (hok : inpOK inp = true) (limit sf : Nat) (fwd : Bool) (st : Bt.State)
-    (bts : Array BtInsn) (saved : List Pk.State) (cur : Pk.State) (steps peakB peakP : Nat)
-    (hrel : StRel prog cur.ip st cur) (hsnap : SnapRel prog bts st saved) (hfuel : limit ≤ steps + sf) :
-    OutSim (Bt.run prog inp limit sf cur.ip cur.pos fwd st bts steps peakB)
+/-- **Lock-step simulation** (`bt_refines_pk`): on related configurations, at addresses whose
+innermost enclosing look-around is `J`, the two machines produce corresponding outcomes — same end of
+match, final states related (equal capture groups), same number of ticks; both fail after the same
+number of ticks; or both exhaust the tick budget. Outcomes are not compared if either machine
+reports `.error`. -/
+theorem bt_refines_pk (prog : Prog) (hs : loopsStructured prog = true) (hl : looksStructured prog = true)
+    (hsimple : simpleProg prog = true) (inp : Input) (hok : inpOK inp = true) (limit sf : Nat)
+    (fwd : Bool) (st : Bt.State) (bts : Array BtInsn) (saved : List Pk.State) (cur : Pk.State)
+    (steps peakB peakP : Nat) (J : Option Nat)
+    (hrel : StRel prog cur.ip st cur) (hsnap : SnapRel prog bts st saved) (hfuel : limit ≤ steps + sf)
+    (hJ : encl prog cur.ip = J) (hb : RecsIn prog (enclIs prog J) allTrue allTrue bts) :
+    OutSim prog J steps (Bt.run prog inp limit sf cur.ip cur.pos fwd st bts steps peakB)
       (Pk.runStates prog inp limit (sf + 1) (saved.reverse.toArray.push cur) fwd steps peakP) :=
-  run_sim hs hsimple hok limit sf fwd st bts saved cur steps peakB peakP hrel hsnap hfuel
+  run_sim hs hl hsimple hok limit sf fwd st bts saved cur steps peakB peakP J hrel hsnap hfuel hJ hb
 
 open Regress.VM.Sim in
-/-- **C02 for the fragment**: one anchored attempt of either executor
+/-- **C02 for programs without `Loop1CharBody`**: one anchored attempt of either executor
 (`classicalbacktrack::verif_attempt` / `pikevm::verif_attempt`, same tick budget) gives the same
 result: the same match end and captures (and tick count), or both fail, or both run out of budget —
 unless one of them hits one of its panic/UB sites (`.error`). -/
-theorem C02_partial (prog : Prog) (hs : loopsStructured prog = true) (hsimple : simpleProg prog = true)
-    (inp : Input) (hok : inpOK inp = true) (fuel pos : Nat) :
+theorem C02_partial (prog : Prog) (hs : loopsStructured prog = true) (hl : looksStructured prog = true)
+    (hsimple : simpleProg prog = true) (inp : Input) (hok : inpOK inp = true) (fuel pos : Nat) :
     match Bt.attempt prog inp fuel pos, Pk.attempt prog inp fuel pos with
     | .error _, _ => True
     | _, .error _ => True
@@ -190,21 +202,23 @@ theorem C02_partial (prog : Prog) (hs : loopsStructured prog = true) (hsimple : 
     | .failed _ s _, .failed s' _ => s = s'
     | .outOfFuel, .outOfFuel => True
     | _, _ => False := by
-  have h := attempt_sim hs hsimple hok (inp := inp) fuel pos
+  have h := attempt_sim hs hl hsimple hok (inp := inp) fuel pos
   generalize Bt.attempt prog inp fuel pos = ob at h
   generalize Pk.attempt prog inp fuel pos = op at h
   cases ob <;> cases op <;> simp only [OutSim] at h ⊢ <;> try trivial
-  obtain ⟨h1, h2, h3, _⟩ := h
-  exact ⟨h1, by simp [Bt.capsOf, Pk.capsOf, h2], h3⟩
+  · obtain ⟨h1, h2, _, _, h3, _⟩ := h
+    exact ⟨h1, by simp [Bt.capsOf, Pk.capsOf, h3.groups], h2⟩
+  · exact h.1
 
 open Regress.VM.Sim in
 /-- The same for the attempt functions of the two `SearchEnv`s of `VM/Search.lean` (which collapse
 errors and fuel exhaustion to `none`): if neither attempt is an `.error`, they agree. -/
 theorem C02_partial_searchEnv (prog : Prog) (hs : loopsStructured prog = true)
-    (hsimple : simpleProg prog = true) (inp : Input) (hok : inpOK inp = true) (fuel pos : Nat)
+    (hl : looksStructured prog = true) (hsimple : simpleProg prog = true) (inp : Input)
+    (hok : inpOK inp = true) (fuel pos : Nat)
     (hB : ∀ e, Bt.attempt prog inp fuel pos ≠ .error e) (hP : ∀ e, Pk.attempt prog inp fuel pos ≠ .error e) :
     (searchEnvBt prog inp fuel).attempt pos = (searchEnvPk prog inp fuel).attempt pos := by
-  have h := C02_partial prog hs hsimple inp hok fuel pos
+  have h := C02_partial prog hs hl hsimple inp hok fuel pos
   simp only [searchEnvBt, searchEnvPk]
   generalize Bt.attempt prog inp fuel pos = ob at h hB
   generalize Pk.attempt prog inp fuel pos = op at h hP
@@ -230,14 +244,40 @@ def progLazy : Prog :=
                .byteSeq [0x63], .backRef 0 false, .goal],
     brackets := #[], loops := 1, groups := 1, flags := {}, names := [], startPred := .arbitrary }
 
+/-- `/(?:(?=(a|b)c)\1.)+/`: a look-ahead with a capture group inside a loop. -/
+def progLookInLoop : Prog :=
+  { insns := #[.enterLoop 0 1 none true 14, .resetCaptureGroup 0, .lookahead false 0 1 11,
+               .beginCaptureGroup 0, .alt 7, .byteSeq [0x61], .jump 8, .byteSeq [0x62], .endCaptureGroup 0,
+               .byteSeq [0x63], .goal, .backRef 0 false, .matchAnyExceptLineTerminator, .loopAgain 0, .goal],
+    brackets := #[], loops := 1, groups := 1, flags := {}, names := [], startPred := .arbitrary }
+
+/-- `/(?<=(a))b|(?!ab)(a)b/`: a look-behind and a negative look-ahead. -/
+def progLookBehind : Prog :=
+  { insns := #[.alt 8, .lookbehind false 0 1 6, .beginCaptureGroup 0, .byteSeq [0x61], .endCaptureGroup 0,
+               .goal, .byteSeq [0x62], .jump 15, .lookahead true 1 1 11, .byteSeq [0x61, 0x62], .goal,
+               .beginCaptureGroup 1, .byteSeq [0x61], .endCaptureGroup 1, .byteSeq [0x62], .goal],
+    brackets := #[], loops := 0, groups := 2, flags := {}, names := [], startPred := .set [0x61, 0x62] }
+
 def inpAlt : Input :=
   { kind := .utf8, bytes := #[0x61, 0x62, 0x63, 0x62, 0x63, 0x64, 0x61, 0x62], unicode := false }
 def inpLazy : Input := { kind := .utf8, bytes := #[0x61, 0x62, 0x63, 0x62], unicode := false }
+def inpLook : Input := { kind := .utf8, bytes := #[0x61, 0x63, 0x62, 0x63, 0x61, 0x62], unicode := false }
 
 example : wfProg progAlt = true ∧ Sim.simpleProg progAlt = true ∧ Sim.loopsStructured progAlt = true ∧
-    Sim.inpOK inpAlt = true ∧ Sim.loopTriples progAlt = [(0, 6, 14)] := by decide +kernel
-example : wfProg progLazy = true ∧ Sim.simpleProg progLazy = true ∧ Sim.loopsStructured progLazy = true := by
+    Sim.looksStructured progAlt = true ∧ Sim.inpOK inpAlt = true ∧
+    Sim.loopTriples progAlt = [(0, 6, 14)] := by decide +kernel
+example : wfProg progLazy = true ∧ Sim.simpleProg progLazy = true ∧ Sim.loopsStructured progLazy = true ∧
+    Sim.looksStructured progLazy = true := by decide +kernel
+example : wfProg progLookInLoop = true ∧ Sim.simpleProg progLookInLoop = true ∧
+    Sim.loopsStructured progLookInLoop = true ∧ Sim.looksStructured progLookInLoop = true := by
   decide +kernel
+example : wfProg progLookBehind = true ∧ Sim.simpleProg progLookBehind = true ∧
+    Sim.loopsStructured progLookBehind = true ∧ Sim.looksStructured progLookBehind = true ∧
+    (List.range 16).map (Sim.encl progLookBehind) =
+      [none, none, some 1, some 1, some 1, some 1, none, none, none, some 8, some 8, none, none, none,
+       none, none] := by
+  decide +kernel
+
 /-- The two attempts on `"abcbcdab"`: both match `0..8` with groups `0..2`, `3..6`, in 36 ticks (and the
 dead loop slot differs: `entry` 3 vs 6). -/
 example :
@@ -254,6 +294,17 @@ example :
     (match Pk.attempt progLazy inpLazy 100 0 with
      | .matched e st s _ => some (e, Pk.capsOf st, s) | _ => none) = some (4, [some (1, 2)], 18) := by
   constructor <;> decide +kernel
+/-- With look-arounds: `"acbcab"` at offsets 0 and 5. -/
+example :
+    (match Bt.attempt progLookInLoop inpLook 100 0 with
+     | .matched e st s _ => some (e, Bt.capsOf st, s) | _ => none) = some (4, [some (2, 3)], 35) ∧
+    (match Pk.attempt progLookInLoop inpLook 100 0 with
+     | .matched e st s _ => some (e, Pk.capsOf st, s) | _ => none) = some (4, [some (2, 3)], 35) ∧
+    (match Bt.attempt progLookBehind inpLook 100 5 with
+     | .matched e st s _ => some (e, Bt.capsOf st, s) | _ => none) = some (6, [some (4, 5), none], 9) ∧
+    (match Pk.attempt progLookBehind inpLook 100 5 with
+     | .matched e st s _ => some (e, Pk.capsOf st, s) | _ => none) = some (6, [some (4, 5), none], 9) := by
+  refine ⟨?_, ?_, ?_, ?_⟩ <;> decide +kernel
 
 /-! ## Non-vacuity for 1–2, and the witnesses that the statements cannot be strengthened -/
 
@@ -276,6 +327,9 @@ example : wfProg progLookGroup = true ∧ lookClosed progLookGroup = true ∧ lo
   decide +kernel
 example : lookClosed Regressions.OldBacktrack.progBackref = true ∧
     lookLoopIds Regressions.OldBacktrack.progBackref = [] := by decide
+
+example : Sim.simpleProg progLookLoop = true ∧ Sim.loopsStructured progLookLoop = true ∧
+    Sim.looksStructured progLookLoop = true := by decide +kernel
 
 def inpABAB : Input := { kind := .utf8, bytes := #[0x61, 0x62, 0x61, 0x62], unicode := false }
 def inpAAB : Input := { kind := .utf8, bytes := #[0x61, 0x61, 0x62], unicode := false }
